@@ -97,6 +97,25 @@ def strategy(ctx):
                     entries.append(['ref', j, k])
                     values.append(values[j] + k)
                     continue
+            if c == 6:
+                # a quotient or remainder, of an earlier enumerator or of a literal (operands of one sign
+                # regime, so that the C value is the truncating mathematical one whatever the C types are)
+                op = draw(st.sampled_from(['/', '%']))
+                d = draw(st.one_of(st.integers(1, 12), st.sampled_from([1, 2, 3, 7, 10, 255, 2 ** 16, 2 ** 32, 10 ** 9,
+                                                                           2 ** 32 + 1, 2 ** 53 + 1, 2 ** 62 - 1])))
+                if values and draw(st.booleans()):
+                    j = draw(st.integers(0, len(values) - 1))
+                    a, ent = values[j], ['refdiv', j, op, d]
+                else:
+                    a = draw(st.one_of(st.sampled_from([U64, U64 - 1, I63, I63 + 1, 2 ** 53 + 1, 2 ** 60 + 3, -I63,
+                                                        -(2 ** 53) - 1, -(2 ** 62) - 5, 10 ** 18 + 7]),
+                                       st.integers(2 ** 53, U64), st.integers(-I63, -(2 ** 53)), st.integers(-50, 50)))
+                    ent = ['litdiv', a, op, d]
+                v = _cdivmod(a, d, op)
+                if admissible(v):
+                    entries.append(ent)
+                    values.append(v)
+                    continue
             v = draw(val)
             if not admissible(v):
                 v = draw(st.integers(0, 9))
@@ -109,6 +128,14 @@ def strategy(ctx):
     return st.integers(1, BATCH[ctx.tier]).flatmap(lambda n: st.lists(enum(), min_size=n, max_size=n))
 
 
+def _cdivmod(a, d, op):
+    """C's truncating division / its remainder (d > 0)"""
+    q = abs(a) // d
+    if a < 0:
+        q = -q
+    return q if op == '/' else a - q * d
+
+
 def values_of(e):
     vals = []
     for ent in e['entries']:
@@ -116,6 +143,10 @@ def values_of(e):
             vals.append(vals[-1] + 1 if vals else 0)
         elif ent[0] == 'lit':
             vals.append(ent[1])
+        elif ent[0] == 'refdiv':
+            vals.append(_cdivmod(vals[ent[1]], ent[3], ent[2]))
+        elif ent[0] == 'litdiv':
+            vals.append(_cdivmod(ent[1], ent[3], ent[2]))
         else:
             vals.append(vals[ent[1]] + ent[2])
     return vals
@@ -137,6 +168,12 @@ def render(e, k):
             parts.append(name)
         elif ent[0] == 'lit':
             parts.append('%s = %s' % (name, _lit(ent[1], ent[2])))
+        elif ent[0] == 'refdiv':
+            parts.append('%s = E%d_%d %s %d' % (name, k, ent[1], ent[2], ent[3]))
+        elif ent[0] == 'litdiv':
+            a = ent[1]
+            lit = ('-' + _lit(-a, 'dec')) if a < 0 else (hex(a) if a > I63 else str(a))
+            parts.append('%s = %s %s %d' % (name, lit, ent[2], ent[3]))
         else:
             base = 'E%d_%d' % (k, ent[1])
             if ent[2] == 0:
@@ -249,6 +286,11 @@ def prop(batch, ctx):
             cls.append('duplicate-values')
         if implicit_after_explicit:
             cls.append('implicit-after-explicit')
+        if any(ent[0] in ('refdiv', 'litdiv') for ent in e['entries']):
+            cls.append('quotient-or-remainder-expression')
+            if any(ent[0] == 'litdiv' and abs(ent[1]) > 2 ** 53 or
+                   ent[0] == 'refdiv' and abs(values_of(e)[ent[1]]) > 2 ** 53 for ent in e['entries']):
+                cls.append('division-operand-beyond-2**53')
         if any(ent[0] == 'ref' for ent in e['entries']):
             cls.append('refers-to-earlier')
         if any(ent[0] == 'lit' and ent[2] == 'hex' for ent in e['entries']):
